@@ -580,8 +580,114 @@ C10Pack(pre, e) ==
     /\ Sub("fails_rather_than_skip", (e.pack.truncated /\ e.pack.result.ok) => e.pack.result = e.pack.ref)
     /\ Sub("foreign_array_rejected", e.pack.foreign => ~e.pack.result.ok)
 
+(* C18: position life cycle *)
+FullRangeOnly(pool) == pool.spacing >= 32768
+FullLo(sp) == 0 - ((443636 \div sp) * sp)
+FullHi(sp) == (443636 \div sp) * sp
+ValidRange(pool, lo, up) ==
+  /\ lo < up /\ lo % pool.spacing = 0 /\ up % pool.spacing = 0 /\ lo >= -443636 /\ up <= 443636
+  /\ FullRangeOnly(pool) => (lo = FullLo(pool.spacing) /\ up = FullHi(pool.spacing))
+(* the tick whose price interval contains the pool price (the stored tick is one less in the shifted state) *)
+PriceTick(s, p) == IF s.pool[p].sqrtPrice \doteq P(s, s.pool[p].tick + 1) THEN s.pool[p].tick + 1 ELSE s.pool[p].tick
+OnTick(s, p) == s.pool[p].sqrtPrice \doteq P(s, PriceTick(s, p))
+SnapDown(t, sp) == t - (t % sp)
+SnapUp(t, sp) == IF t % sp = 0 THEN t ELSE t + (sp - (t % sp))
+IntMin == (0 - 2147483647) - 1
+IntMax == 2147483647
+ExpectedRange(s, p, lo, up) ==   \* a sentinel bound is derived from the price: nearest usable tick keeping the position on one side
+  LET pool == s.pool[p] IN
+  IF FullRangeOnly(pool) \/ (lo # IntMin /\ up # IntMax) THEN <<lo, up>>
+  ELSE << IF lo = IntMin THEN SnapUp(IF OnTick(s, p) THEN PriceTick(s, p) ELSE PriceTick(s, p) + 1, pool.spacing) ELSE lo,
+          IF up = IntMax THEN SnapDown(PriceTick(s, p), pool.spacing) ELSE up >>
+
+PosEmpty(x) == x.liq \doteq 0 /\ x.owedA \doteq 0 /\ x.owedB \doteq 0 /\ \A i \in 1..3 : x.rw[i].owed \doteq 0
+Frozen(s, ta) == ta \in DOMAIN s.tok /\ s.tok[ta].state = 2
+
+OpenNames == {"open_position", "open_position_with_metadata", "open_position_with_token_extensions", "open_bundled_position"}
+C18Open(pre, e, post) ==
+  LET k == APos(e) p == APool(e) IN
+  /\ Sub("created", k \notin DOMAIN pre.pos /\ k \in DOMAIN post.pos /\ post.pos[k].pool = p)
+  /\ Sub("not_both_derived", ~(e.args.lo = IntMin /\ e.args.up = IntMax) \/ FullRangeOnly(pre.pool[p]))
+  /\ LET x == post.pos[k] er == ExpectedRange(pre, p, e.args.lo, e.args.up) IN
+       /\ Sub("range_as_requested_or_derived", x.lo = er[1] /\ x.up = er[2])
+       /\ Sub("range_valid", ValidRange(pre.pool[p], x.lo, x.up))
+       /\ Sub("starts_empty", PosEmpty(x) /\ x.cpA \doteq 0 /\ x.cpB \doteq 0 /\ \A i \in 1..3 : x.rw[i].cp \doteq 0)
+       /\ IF e.name = "open_bundled_position" THEN TRUE
+          ELSE /\ Sub("one_token_minted", x.mint \in DOMAIN post.mint /\ post.mint[x.mint].supply \doteq 1)
+               /\ Sub("no_mint_authority", post.mint[x.mint].auth = "none")
+               /\ Sub("owner_holds_it", LET ta == e.slots.position_token_account.id IN
+                         ta \in DOMAIN post.tok /\ post.tok[ta].mint = x.mint /\ post.tok[ta].amount \doteq 1 /\ post.tok[ta].owner = e.slots.owner.id)
+
+CloseNames == {"close_position", "close_position_with_token_extensions", "close_bundled_position"}
+C18Close(pre, e, post) ==
+  LET k == IF e.name = "close_bundled_position" THEN e.slots.bundled_position.id ELSE e.slots.position.id IN
+  /\ Sub("existed", k \in DOMAIN pre.pos)
+  /\ Sub("only_when_empty", PosEmpty(pre.pos[k]))
+  /\ Sub("removed", k \notin DOMAIN post.pos)
+  /\ Sub("not_locked", e.name = "close_bundled_position" \/ ~Frozen(pre, e.slots.position_token_account.id))
+
+C18Reset(pre, e, post) ==
+  LET k == e.slots.position.id x == pre.pos[k] y == post.pos[k] IN
+  /\ Sub("only_when_empty", PosEmpty(x))
+  /\ Sub("different_range", ~(y.lo = x.lo /\ y.up = x.up))
+  /\ Sub("range_valid", ValidRange(pre.pool[x.pool], y.lo, y.up) /\ y.lo = e.args.lo /\ y.up = e.args.up)
+  /\ Sub("checkpoints_reset", y.cpA \doteq 0 /\ y.cpB \doteq 0 /\ \A i \in 1..3 : y.rw[i].cp \doteq 0)
+  /\ Sub("still_empty", PosEmpty(y))
+  /\ Sub("not_locked", ~Frozen(pre, e.slots.position_token_account.id))
+
+C18Reposition(pre, e, post) ==
+  LET k == e.slots.position.id x == pre.pos[k] y == post.pos[k] IN
+  /\ Sub("range_valid", ValidRange(pre.pool[x.pool], y.lo, y.up) /\ y.lo = e.args.newLo /\ y.up = e.args.newUp)
+  /\ Sub("different_range", ~(y.lo = x.lo /\ y.up = x.up))
+  /\ Sub("not_locked", ~Frozen(pre, e.slots.position_token_account.id))
+
+C18Lock(pre, e, post) ==
+  LET k == e.slots.position.id ta == e.slots.position_token_account.id IN
+  /\ Sub("only_with_liquidity", ~(pre.pos[k].liq \doteq 0))
+  /\ Sub("token_frozen", Frozen(post, ta) /\ ~Frozen(pre, ta))
+  /\ Sub("lock_config", k \in DOMAIN post.lock /\ post.lock[k].owner = pre.tok[ta].owner /\ post.lock[k].pool = pre.pos[k].pool)
+
+C18TransferLocked(pre, e, post) ==
+  LET k == e.slots.position.id src == e.slots.position_token_account.id dst == e.slots.destination_token_account.id IN
+  /\ Sub("was_locked", Frozen(pre, src) /\ k \in DOMAIN pre.lock)
+  /\ Sub("stays_locked", Frozen(post, dst) /\ post.tok[dst].amount \doteq 1 /\ post.tok[dst].mint = pre.pos[k].mint)
+  /\ Sub("source_emptied", src \notin DOMAIN post.tok \/ post.tok[src].amount \doteq 0)
+  /\ Sub("lock_owner_updated", post.lock[k].owner = post.tok[dst].owner)
+  /\ Sub("liquidity_untouched", post.pos[k].liq \doteq pre.pos[k].liq)
+
+C18Bundle(pre, e, post) ==
+  LET b == e.slots.position_bundle.id IN
+  CASE e.name = "open_bundled_position" ->
+         Sub("bit_flipped_on", {post.bundle[b].open[i] : i \in DOMAIN post.bundle[b].open} = {pre.bundle[b].open[i] : i \in DOMAIN pre.bundle[b].open} \cup {e.args.index}
+                               /\ e.args.index \notin {pre.bundle[b].open[i] : i \in DOMAIN pre.bundle[b].open})
+    [] e.name = "close_bundled_position" ->
+         Sub("bit_flipped_off", {post.bundle[b].open[i] : i \in DOMAIN post.bundle[b].open} = {pre.bundle[b].open[i] : i \in DOMAIN pre.bundle[b].open} \ {e.args.index}
+                               /\ e.args.index \in {pre.bundle[b].open[i] : i \in DOMAIN pre.bundle[b].open})
+    [] e.name = "delete_position_bundle" -> Sub("deleted_only_when_none_open", pre.bundle[b].open = <<>> /\ b \notin DOMAIN post.bundle)
+    [] OTHER -> TRUE
+
+(* state invariants of the life cycle *)
+C18State(s) ==
+  /\ Sub("bitmap_exact", \A b \in DOMAIN s.bundle : s.bundle[b].open = s.bundle[b].existing)
+  /\ Sub("locked_has_liquidity", \A k \in DOMAIN s.lock : k \in DOMAIN s.pos /\ ~(s.pos[k].liq \doteq 0))
+  /\ Sub("position_token_supply_one", \A k \in DOMAIN s.pos :
+         LET m == s.pos[k].mint IN (m \in DOMAIN s.mint /\ ~(\E b \in DOMAIN s.bundle : s.bundle[b].mint = m)) => (s.mint[m].supply \doteq 1 /\ s.mint[m].auth = "none"))
+
+LockedForbidden == {"decrease_liquidity", "decrease_liquidity_v2", "close_position", "close_position_with_token_extensions", "reset_position_range", "reposition_liquidity_v2"}
+C18Event(pre, e, post) ==
+  /\ (e.name \in OpenNames) => C18Open(pre, e, post)
+  /\ (e.name \in CloseNames) => C18Close(pre, e, post)
+  /\ (e.name = "reset_position_range") => C18Reset(pre, e, post)
+  /\ (e.name = "reposition_liquidity_v2") => C18Reposition(pre, e, post)
+  /\ (e.name = "lock_position") => C18Lock(pre, e, post)
+  /\ (e.name = "transfer_locked_position") => C18TransferLocked(pre, e, post)
+  /\ (e.name \in {"open_bundled_position", "close_bundled_position", "delete_position_bundle"}) => C18Bundle(pre, e, post)
+  /\ (e.name \in LockedForbidden /\ "position_token_account" \in DOMAIN e.slots) => Sub("locked_position_untouchable", ~Frozen(pre, e.slots.position_token_account.id))
+  /\ C18State(post)
+
 (* the per-event transition *)
 IxOK(pre, e, post) ==
+  /\ Chk("C18", "life_cycle", C18Event(pre, e, post))
   /\ IF IsSwapName(e.name) THEN Chk("C10", "path", C10Swap(pre, e, post)) ELSE TRUE
   /\ Chk("C10", "packaging", C10Pack(pre, e))
   /\ Chk("C17", "two_hop", C17TwoHop(pre, e, post))
